@@ -206,6 +206,14 @@ def specElemValue (s : Schema) (a : Ann) (attrs : List (String × String)) (kids
         let txt := if txt.isEmpty then (a.xsdElem.bind (·.default)).getD "" else txt
         decode t txt
 
+/-- XSD 1.1 Part 1 §3.4.4.2 clause 3 / XDM 3.1 §6.3.4: an attribute information item is attributed to
+the attribute use with its name in the governing complex type of its element; its type is the
+declared type of that use (`none`: no such use — the attribute is not assessed by declaration) -/
+def specAttrType (s : Schema) (ty : Ty) (name : String) : Option SType :=
+  match ty with
+  | .simple _ => none
+  | .complex id => (s.ctypes[id]?).bind fun ct => (ct.attrs.find? (fun d => d.name == name)).map (·.type)
+
 /-- expected typed value of an attribute of declared type `t` (XDM 3.1 §6.3.4) -/
 def specAttrValue (t : Option SType) (value : String) : Option (List Atom) :=
   match t with
